@@ -46,7 +46,29 @@ def mentions_old(t):
 def seq_replay(w):
     """bounded search over short call sequences on the real classes (the rt layer's own harness)"""
     import types
+    import warnings
+    import numpy as np
+    warnings.simplefilter("ignore")
     from ..rt import c10 as rt
+    # hidden state: the same object simulated again after its fluid was replaced must equal a fresh object
+    try:
+        flow = __import__("bluebonnet.flow", fromlist=["x"])
+        P = np.linspace(100.0, 9000.0, 40)
+        def table(a0):
+            return {"pressure": P, "pseudopressure": P**2, "alpha": a0 * (1 + (P / 9000.0) ** 2)}
+        tgrid = np.linspace(0, 1.0, 30) ** 2
+        fa, fb = flow.FlowProperties(table(2.0), 8000.0), flow.FlowProperties(table(0.5), 8000.0)
+        res = flow.SinglePhaseReservoir(10, 1000.0, 8000.0, fa)
+        res.simulate(tgrid)
+        res.fluid = fb
+        res.simulate(tgrid)
+        fresh = flow.SinglePhaseReservoir(10, 1000.0, 8000.0, fb)
+        fresh.simulate(tgrid)
+        if not np.array_equal(res.pseudopressure, fresh.pseudopressure):
+            return {"reproduced": True, "input": {"sequence": "simulate(t); res.fluid = other FlowProperties; simulate(t)", "tables": "pseudopressure p^2, alpha a0 (1 + (p/9000)^2) with a0 = 2 then 0.5", "nx": 10, "p_f": 1000.0, "p_i": 8000.0},
+                    "observed": {"max difference to a fresh object": float(np.abs(res.pseudopressure - fresh.pseudopressure).max()), "extra attributes": sorted(set(vars(res)) - set(vars(fresh)))}, "required": "identical to a fresh object simulated with the current fluid"}
+    except Exception:  # noqa: BLE001
+        pass
     r_ = rt.run(types.SimpleNamespace(tier="quick", seed=0))
     if r_["violations"]:
         v = r_["violations"][0]
